@@ -152,6 +152,60 @@ def run(ctx) -> None:
                     ctx.count("gross_range.integer_data_fractional_limit_calls")
                     ctx.case(f"gr|int-data|{cname}|{relation(fail, suspect)}")
 
+    # ---- histories and layouts (last shard)
+    if ctx.shard == ctx.nshards - 1:
+        # (a) the same span used on single- and double-precision data one after the other, in either order: each call
+        #     compares in ITS data's precision (the documented cast of the span to the data's dtype)
+        for lo, hi in [(0.1, 0.3), (0.7, 1.1), (-0.3, 0.1), (1e-3, 16777217.0)]:
+            span = (lo, hi)
+            base = [lo, hi, float(np.float32(lo)), float(np.float32(hi)), float(np.nextafter(lo, 1e9)), float(np.nextafter(hi, -1e9)),
+                    (lo + hi) / 2, lo - 1, hi + 1]
+            for order in (("float32", "float64"), ("float64", "float32"), ("float32", "float64", "float32")):
+                for dt_ in order:
+                    arr_ = np.array(base, dtype=dt_)
+                    lv = [float(v) for v in arr_]
+                    mlo, mhi = (float(np.float32(lo)), float(np.float32(hi))) if dt_ == "float32" else (lo, hi)
+                    for si, ei in ((True, False), (True, True)):
+                        kw = {"inp": arr_, "valid_span": span, "start_inclusive": si, "end_inclusive": ei}
+                        client.expect(ctx, "C03", "axds.valid_range_test", kw, lambda: models.valid_range(lv, mlo, mhi, si, ei),
+                                      logical={"values": lv, "valid_span": [lo, hi], "dtype": dt_, "si": si, "ei": ei,
+                                               "history": "same span on " + " then ".join(order)}, hist="valid_range")
+                        ctx.count("valid_range.calls")
+                        ctx.count("valid_range.precision_history_calls")
+                ctx.case(f"vr|precision-history|{lo}|{'>'.join(order)}")
+        # (b) N-D data in C order, Fortran order and as a transposed view: the flag of an element sits at that element's index
+        vals2 = [[-2.5, 0.0, 3.5], [1.0, 2.0, -1.0]]
+        for lname, mk in (("C", lambda a: np.ascontiguousarray(a)), ("F", lambda a: np.asfortranarray(a)), ("T-view", lambda a: np.ascontiguousarray(a.T).T),
+                          ("masked-F", lambda a: np.ma.MaskedArray(np.asfortranarray(a), mask=np.asfortranarray(np.isnan(a))))):
+            a2 = mk(np.array(vals2))
+            flat = [v for row in vals2 for v in row]
+            for fname, kw, model in (("qartod.gross_range_test", {"inp": a2, "fail_span": [-2, 3], "suspect_span": [-1, 2]},
+                                      lambda: models.gross_range(flat, (-2, 3), (-1, 2))),
+                                     ("axds.valid_range_test", {"inp": a2, "valid_span": (-1.0, 2.0)},
+                                      lambda: models.valid_range(flat, -1.0, 2.0, True, False))):
+                o = client.invoke(fname, kw)
+                ctx.count("gross_range.calls" if "gross" in fname else "valid_range.calls")
+                ctx.case(f"nd-layout|{fname}|{lname}")
+                want = [sorted(s_)[0] for s_ in model()]
+                got = None if o.kind != "return" or o.flags is None else (np.asarray(o.flags).tolist() if np.shape(o.flags) == (2, 3) else repr(np.shape(o.flags)))
+                if got != [want[:3], want[3:]]:
+                    ctx.violation(f"C03:nd-layout:{fname}:{lname}", {"kind": "call", "func": fname, "layout": lname, "values": vals2,
+                                                                     "expected": [want[:3], want[3:]], "observed": o.brief()})
+        # (c) time values given as a plain list of datetime64 scalars (no dtype argument), span in another unit
+        tt = np.array(["2021-03-01T00:00:00", "2021-03-01T00:00:02", "2021-03-01T00:00:04", "NaT", "2021-03-01T00:00:06"], dtype="datetime64[s]")
+        tl = [0, 2, 4, None, 6]
+        for unit_v, unit_s in (("s", "ns"), ("ns", "s"), ("ms", "m"), ("s", "s")):
+            for a_, b_ in ((2, 6), (0, 4), (None, 4), (2, None)):
+                if unit_s == "m" and (a_ or b_):
+                    a_, b_ = (0 if a_ is not None else None), (60 if b_ is not None else None)
+                mkb = lambda v: None if v is None else (np.datetime64("2021-03-01T00:00:00", "s") + np.timedelta64(v, "s")).astype(f"datetime64[{unit_s}]")  # noqa: E731
+                kw = {"inp": list(tt.astype(f"datetime64[{unit_v}]")), "valid_span": (mkb(a_), mkb(b_))}
+                client.expect(ctx, "C03", "axds.valid_range_test", kw, lambda: models.valid_range(tl, a_, b_, True, False),
+                              logical={"seconds": tl, "valid_span_s": [a_, b_], "carrier": f"list of datetime64[{unit_v}] scalars, span in [{unit_s}]"},
+                              hist="valid_range")
+                ctx.count("valid_range.calls")
+                ctx.case(f"vr|dt64-scalar-list|{unit_v}|{unit_s}|{a_}|{b_}")
+
     # malformed spans are rejected (isfixedlength)
     if ctx.shard == 0:
         for bad in ([1], [1, 2, 3], (), "ab"):
